@@ -44,25 +44,29 @@ def elemExpr (e : UnitElem) : UExpr :=
   | some m => .mult m x2
   | none => x2
 
-/-- the offset test as the source writes it = the model's `offsetRejected` -/
+/-- the offset test as the source writes it (`float(offset) != 0`; `float` may raise `ValueError`, the class of the
+    `raise` below it) = the model's `offsetRejected`: either `float` raises and the model refuses, or it returns `x` and
+    `x != 0` is the model's answer -/
 theorem offset_cond (o : String) :
-    (!(Pint.isNumeric (Pint.strip o)) || Pint.int o != 0) = offsetRejected o := by
-  unfold Pint.isNumeric Pint.strip Pint.int offsetRejected
-  simp only [String.toList_ofList]
-  generalize Decimal.trimList o.toList = t
-  by_cases h1 : t.isEmpty = true
-  · simp [h1]
-  · by_cases h2 : t.all Char.isDigit = true
-    · cases h3 : Decimal.digitsToNat t with
-      | none => simp [h1, h2]
-      | some n =>
-        by_cases hn : n = 0
-        · subst hn; simp [h1, h2]
-        · have : (n : Int) ≠ 0 := by omega
-          have e1 : ((n : Int) != 0) = true := by simpa [bne_iff_ne] using this
-          have e2 : (n != 0) = true := by simpa [bne_iff_ne] using hn
-          simp [h1, h2, e1, e2]
-    · simp [h1, h2]
+    (Pint.float o = .error ⟨"ValueError"⟩ ∧ offsetRejected o = true) ∨
+      ∃ x, Pint.float o = .ok x ∧ (x != 0) = offsetRejected o := by
+  unfold Pint.float offsetRejected
+  cases h : floatText o with
+  | none => exact Or.inl ⟨rfl, rfl⟩
+  | some v =>
+    cases v with
+    | nan => exact Or.inr ⟨.nan, rfl, rfl⟩
+    | inf => exact Or.inr ⟨.inf, rfl, rfl⟩
+    | dec q =>
+      refine Or.inr ⟨_, rfl, ?_⟩
+      by_cases hz : roundsToZero q = true
+      · simp only [hz, if_true]; rfl
+      · have hq : q ≠ 0 := by
+          intro h0; subst h0; exact hz (by decide +kernel)
+        have hz' : roundsToZero q = false := by simpa using hz
+        simp only [hz', Bool.false_eq_true, if_false, Bool.not_false]
+        show (!(q == (0 : Rat))) = true
+        simpa [bne_iff_ne] using hq
 
 theorem prefix_try (p : String) :
     (tryCatch (Pint.prefixTable p) fun e__ =>
@@ -87,11 +91,24 @@ theorem makeDef_tie (units_name : String) (elems : List UnitElem) :
     · rw [foldl_snoc_map]; simp [h, bind, Except.bind, Pint.joinStar, pure, Except.pure]
   · intro e s
     obtain ⟨u, pf, ex, mu, off⟩ := e
-    simp only [get_units, get_prefix, get_exponent, get_multiplier, get_offset, has_prefix, has_exponent,
-      has_multiplier, has_offset, Py.truthy_bool, offset_cond, bind, Except.bind, prefix_try, elemOffsetBad, elemExpr]
-    cases pf <;> cases ex <;> cases mu <;> cases off <;>
-      simp [Pint.fmtMul, Pint.fmtPow, pure, Except.pure, throw, throwThe, MonadExceptOf.throw] <;>
-      split_ifs <;> simp_all
+    cases off with
+    | none =>
+      simp only [get_units, get_prefix, get_exponent, get_multiplier, get_offset, has_prefix, has_exponent,
+        has_multiplier, has_offset, Py.truthy_bool, bind, Except.bind, prefix_try, elemOffsetBad, elemExpr]
+      cases pf <;> cases ex <;> cases mu <;>
+        simp [Pint.fmtMul, Pint.fmtPow, pure, Except.pure]
+    | some o =>
+      rcases offset_cond o with ⟨h1, h2⟩ | ⟨x, h1, h2⟩
+      · simp only [get_units, get_prefix, get_exponent, get_multiplier, get_offset, has_prefix, has_exponent,
+          has_multiplier, has_offset, Py.truthy_bool, bind, Except.bind, prefix_try, elemOffsetBad, elemExpr,
+          Option.getD_some, h1, h2]
+        cases pf <;> cases ex <;> cases mu <;>
+          simp
+      · simp only [get_units, get_prefix, get_exponent, get_multiplier, get_offset, has_prefix, has_exponent,
+          has_multiplier, has_offset, Py.truthy_bool, bind, Except.bind, prefix_try, elemOffsetBad, elemExpr,
+          Option.getD_some, h1, ← h2]
+        cases pf <;> cases ex <;> cases mu <;> cases hx : (x != 0) <;>
+          simp [Pint.fmtMul, Pint.fmtPow, pure, Except.pure, throw, throwThe, MonadExceptOf.throw]
 
 /-! ### the string: the tree constructors are names for the format strings of the source -/
 
@@ -120,12 +137,24 @@ theorem makeDefStr_tie (units_name : String) (elems : List UnitElem) :
       simp [h, bind, Except.bind, pure, Except.pure, Except.map, PintDef.render, Function.comp_def]
   · intro e s
     obtain ⟨u, pf, ex, mu, off⟩ := e
-    simp only [get_units, get_prefix, get_exponent, get_multiplier, get_offset, has_prefix, has_exponent,
-      has_multiplier, has_offset, Py.truthy_bool, offset_cond, bind, Except.bind, prefix_try_str, elemOffsetBad,
-      elemExpr]
-    cases pf <;> cases ex <;> cases mu <;> cases off <;>
-      simp [UExpr.render, pure, Except.pure, throw, throwThe, MonadExceptOf.throw] <;>
-      split_ifs <;> simp_all
+    cases off with
+    | none =>
+      simp only [get_units, get_prefix, get_exponent, get_multiplier, get_offset, has_prefix, has_exponent,
+        has_multiplier, has_offset, Py.truthy_bool, bind, Except.bind, prefix_try_str, elemOffsetBad, elemExpr]
+      cases pf <;> cases ex <;> cases mu <;>
+        simp [UExpr.render, pure, Except.pure]
+    | some o =>
+      rcases offset_cond o with ⟨h1, h2⟩ | ⟨x, h1, h2⟩
+      · simp only [get_units, get_prefix, get_exponent, get_multiplier, get_offset, has_prefix, has_exponent,
+          has_multiplier, has_offset, Py.truthy_bool, bind, Except.bind, prefix_try_str, elemOffsetBad, elemExpr,
+          Option.getD_some, h1, h2]
+        cases pf <;> cases ex <;> cases mu <;>
+          simp
+      · simp only [get_units, get_prefix, get_exponent, get_multiplier, get_offset, has_prefix, has_exponent,
+          has_multiplier, has_offset, Py.truthy_bool, bind, Except.bind, prefix_try_str, elemOffsetBad, elemExpr,
+          Option.getD_some, h1, ← h2]
+        cases pf <;> cases ex <;> cases mu <;> cases hx : (x != 0) <;>
+          simp [UExpr.render, pure, Except.pure, throw, throwThe, MonadExceptOf.throw]
 
 /-! ### non-vacuity: the generated definitions run (python gives `(((c * 1e3))**0.5)*(60 * (volt * 0.001))`: the
     float of the table is spelled `0.001` there, see `Pint.floatStr`) -/
@@ -133,7 +162,13 @@ theorem makeDefStr_tie (units_name : String) (elems : List UnitElem) :
 example : UnitDefs.makePintUnitDefinitionStr "d"
     [⟨"c", some "3", some "0.5", none, none⟩, ⟨"volt", some "milli", none, some "60", some " 0 "⟩] =
       .ok "(((c * 1e3))**0.5)*(60 * (volt * 1e-3))" := by decide +kernel
-example : UnitDefs.makePintUnitDefinition "d" [⟨"c", none, none, none, some "0.0"⟩] = .error ⟨"ValueError"⟩ := by
+/-- zero in another spelling is accepted (before the repair: `ValueError`); a fraction, text that is not a number
+    (`float` raises) and `nan` are refused -/
+example : UnitDefs.makePintUnitDefinition "d" [⟨"c", none, none, none, some "0.0"⟩] = .ok ⟨[.name "c"]⟩ ∧
+    UnitDefs.makePintUnitDefinition "d" [⟨"c", none, none, none, some "-0"⟩] = .ok ⟨[.name "c"]⟩ ∧
+    UnitDefs.makePintUnitDefinition "d" [⟨"c", none, none, none, some "0.5"⟩] = .error ⟨"ValueError"⟩ ∧
+    UnitDefs.makePintUnitDefinition "d" [⟨"c", none, none, none, some "zero"⟩] = .error ⟨"ValueError"⟩ ∧
+    UnitDefs.makePintUnitDefinition "d" [⟨"c", none, none, none, some "nan"⟩] = .error ⟨"ValueError"⟩ := by
   decide +kernel
 
 end Cellml.Tie.PUnitDefs
